@@ -10,6 +10,7 @@ import (
 	"net"
 	"strings"
 	"sync"
+	"sync/atomic"
 	"testing"
 	"time"
 
@@ -417,6 +418,8 @@ func runC15once(c C15Case) (fails []vstat.Failure) {
 	id := caseSeq.Add(1)
 	key := func(clause string) string { return "C15:" + c.Stack + ":" + clause }
 	results := make([]stallResult, len(c.Stalled))
+	probe := startLagProbe()
+	defer probe.stop()
 	var wg sync.WaitGroup
 	for i, s := range c.Stalled {
 		wg.Add(1)
@@ -464,9 +467,23 @@ func runC15once(c C15Case) (fails []vstat.Failure) {
 		}
 		took := r.closed.Sub(r.ref)
 		desc := fmt.Sprintf("peer %d stalled at %s (k=%d): applicable limit %s = %v, connection ended %v after the earliest possible start of that timer", i, r.spec.Point, r.spec.K, r.name, r.limit, took.Round(time.Millisecond))
+		// tolerance for "ended by the limit": half the limit, at least 250 ms - small enough that a limit applied
+		// twice over, or replaced by a longer one, is seen; it only counts when the process was not starved of CPU
+		// meanwhile (measured) and after two repetitions
+		tol := r.limit / 2
+		if tol < 250*time.Millisecond {
+			tol = 250 * time.Millisecond
+		}
 		switch {
 		case r.open:
 			fails = append(fails, vstat.Failf(key("too-late:"+r.spec.Point), "%s: still open %v after the limit", desc, r.slack))
+		case took > r.limit+tol:
+			if lag := probe.max(); lag > 40*time.Millisecond {
+				st.Inconclusive()
+				st.Note("C15: a late cut-off (%v after a %v limit) is not judged: the scheduler delayed a 5 ms sleep by up to %v during the case", took.Round(time.Millisecond), r.limit, lag.Round(time.Millisecond))
+			} else {
+				fails = append(fails, vstat.Failf(key("too-late:"+r.spec.Point), "%s: more than %v later than the limit allows", desc, tol))
+			}
 		case took < r.limit:
 			fails = append(fails, vstat.Failf(key("too-early:"+r.spec.Point), "%s: closed before the limit had elapsed", desc))
 		}
@@ -514,3 +531,32 @@ func classifyC15(c C15Case) (bool, string, []string) {
 var propC15 = vstat.Prop[C15Case]{Name: "TestC15Stall", Gen: genC15, Run: runC15, Classify: classifyC15}
 
 func TestC15Stall(t *testing.T) { propC15.Check(t, st) }
+
+
+// lagProbe measures by how much short sleeps overshoot while a case runs: the scheduling noise that timing
+// tolerances have to be read against.
+type lagProbe struct {
+	worst atomic.Int64
+	done  chan struct{}
+}
+
+func startLagProbe() *lagProbe {
+	p := &lagProbe{done: make(chan struct{})}
+	go func() {
+		for {
+			t0 := time.Now()
+			select {
+			case <-p.done:
+				return
+			case <-time.After(5 * time.Millisecond):
+			}
+			if over := int64(time.Since(t0) - 5*time.Millisecond); over > p.worst.Load() {
+				p.worst.Store(over)
+			}
+		}
+	}()
+	return p
+}
+
+func (p *lagProbe) max() time.Duration { return time.Duration(p.worst.Load()) }
+func (p *lagProbe) stop()              { close(p.done) }
